@@ -9,10 +9,20 @@ def run(ctx):
     from vlib import impl  # noqa: F401
     from ahbicht.models.condition_nodes import ConditionFulfilledValue as V
 
-    built = prepare(ctx, ["Gen_logic", "Gen_readme"], ["Props/C03.vo"])
     vals = list(V)
     ops = {"cfv_and": lambda a, b: a & b, "cfv_or": lambda a, b: a | b, "cfv_xor": lambda a, b: a ^ b}
     coqname = lambda v: "C_" + v.name
+    # history (before anything else touches the operators in this process): the states are str-valued, so callers that hold the plain strings (e.g. straight out of JSON) may have used the operators with
+    # them before; whatever that returned, it must not change what the operators return for the four states afterwards
+    for f in ops.values():
+        for a in vals:
+            for b in vals:
+                for x, y in ((a, str(b.value)), (str(a.value), b)):
+                    try:
+                        f(x, y)
+                    except Exception:  # pylint: disable=broad-except
+                        pass
+    built = prepare(ctx, ["Gen_logic", "Gen_readme"], ["Props/C03.vo"])
     # --- translator validation (tie T): generated Gallina vs the Python operators on the whole domain
     pairs = list(itertools.product(vals, vals))
     cases = []
